@@ -25,7 +25,11 @@ Inductive case :=
        (o_status : result unit)                      (* observed: the query's nil / error class / panic *)
        (o_dest : list dst)                           (* observed: destination, one entry per element *)
        (o_tx : option (option err * list call * bool * nat))
-| CPair (first second : case).                       (* two queries issued one after the other in one process
+| CPair (first second : case)
+| CStream (ops : list (meth * bool))                 (* one breaker-guarded conn: queries that hit an EMPTY result,
+                                                        (method, destination is a struct / an int64), in order *)
+          (o_st : list (result unit))                (* observed: status of each of them *)
+          (final : case).                            (* then a query for an existing row on the same conn *)                       (* two queries issued one after the other in one process
                                                         (destination types of the same NAME, different tags) *)
                                                      (* inside Transact: its result, begin/commit/rollback
                                                         log, whether a panic escaped Transact, body runs *)
@@ -85,12 +89,40 @@ Definition model_ok1 (c : case) : bool :=
       | _, _ => false
       end
   | CPair _ _ => false
+  | CStream _ _ _ => false
+  end.
+
+(* the two destinations of a stream: struct{A int64 `db:"a"`; B string `db:"b"`} and int64 *)
+Definition stream_fs : list field := [FLeaf "a"%string false KInt; FLeaf "b"%string false KStr].
+Definition stream_shape (m : meth) (is_struct : bool) : dshape :=
+  let e := if is_struct then EStruct stream_fs else EPrim KInt in
+  if rows_mode m then DSlice false e else DElem e.
+(* the query's own outcome on an empty result set *)
+Definition stream_own (op : meth * bool) : result unit :=
+  snd (run_query (rows_mode (fst op)) (strict_flag RConn (fst op)) (stream_shape (fst op) (snd op)) ["a"%string; "b"%string] []).
+
+(* the breaker's history is threaded through the run: an observed ErrServiceUnavailable is possible only
+   where the drop ratio is positive; otherwise the query's own outcome must have been observed *)
+Fixpoint stream_model (s : brk_state) (ops : list (meth * bool)) (obs : list (result unit)) : option brk_state :=
+  match ops, obs with
+  | [], [] => Some s
+  | op :: ops', o :: obs' =>
+      let rejected := status_eqb o (Err EUnavailableQ) in
+      if (if rejected then brk_may_reject s else status_eqb o (stream_own op))
+      then stream_model (snd (conn_query s (stream_own op) rejected)) ops' obs'
+      else None
+  | _, _ => None
   end.
 
 (* the model keeps no state between queries: each query of a sequence is predicted on its own *)
 Definition model_ok (c : case) : bool :=
   match c with
   | CPair a b => model_ok1 a && model_ok1 b
+  | CStream ops o_st final =>
+      match stream_model brk_fresh ops o_st with
+      | Some s => negb (brk_may_reject s) && model_ok1 final
+      | None => false
+      end
   | _ => model_ok1 c
   end.
 
@@ -183,6 +215,7 @@ Definition spec_ok1 (c : case) : bool :=
           tx_allowed no_faults (body_of_query o_status) r cs (if esc then Some 0 else None) runs
       end
   | CPair _ _ => false
+  | CStream _ _ _ => false
   end.
 
 (* the mapping is per destination TYPE: every query of a sequence satisfies the clauses for ITS OWN shape,
@@ -190,5 +223,11 @@ Definition spec_ok1 (c : case) : bool :=
 Definition spec_ok (c : case) : bool :=
   match c with
   | CPair a b => spec_ok1 a && spec_ok1 b
+  | CStream ops o_st final =>
+      (* every single-row query on an empty result reports ErrNotFound - the 300th like the first, never
+         ErrServiceUnavailable -, a multi-row query on an empty result is nil, and the following query for
+         an existing row is answered like any other *)
+      all2 (fun (op : meth * bool) o => status_eqb o (if rows_mode (fst op) then Ok tt else Err ENotFound)) ops o_st &&
+      spec_ok1 final
   | _ => spec_ok1 c
   end.
